@@ -1,6 +1,5 @@
 SPECIFICATION MCSpec
 CONSTANTS
   Universe = "small"
-  Probe = "none"
-INVARIANTS Payable DeliveredIsHopValid BuildIsTight DeliveredFits LimitsAreSums SizeIsExact
+INVARIANTS Payable DeliveredIsHopValid BuildIsTight
 CHECK_DEADLOCK FALSE
